@@ -94,14 +94,14 @@ CHECKS = {
         note="Trusted: the harness's bit-string model and prefix counting; deterministic sharding through TestVectorClient::shard_with_random.",
         design="3/C03"),
     "C07": dict(
-        technique="grammar-based generation + round-trip/canonicity oracle (proptest), honest-message harvest from protocol runs",
+        technique="grammar-based generation + round-trip/canonicity oracle (proptest), honest-message harvest from protocol runs; thorough tier adds a coverage-guided libFuzzer campaign with the same oracle inside the target",
         text="A per-type grammar written from the wire format builds canonical encodings and strings with exactly one known defect for ~30 message types × generated decoding parameters; two-sided oracle (canonical ⇒ accepted, defective ⇒ rejected) plus accepted ⇒ re-encodes to the same bytes ∧ encoded_len exact ∧ decode(encode(v)) = v; every message of honest Prio3/Poplar1/Prio2 runs is probed too.",
-        note="Trusted: the layouts in engine/src/codec.rs (independent of the decoders). A libFuzzer tier with the same oracle is planned for the thorough command.",
+        note="Trusted: the layouts in engine/src/codec.rs (independent of the decoders). The thorough command additionally builds the cargo-fuzz target /verif/fuzz/fuzz_targets/codec.rs against /repo and runs it (3M executions on 16 jobs, seeds = the grammar's canonical encodings); an artifact is turned into a JSON replay by the in-process oracle; the quick command replays /verif/fuzz/regress/*.",
         design="3/C07"),
     "C08": dict(
-        technique="exhaustive short-string enumeration + header-extreme enumeration + mutation-based generation under panic/allocation/watchdog monitors",
+        technique="exhaustive short-string enumeration + header-extreme enumeration + mutation-based generation under panic/allocation/watchdog monitors; thorough tier adds a coverage-guided libFuzzer campaign (ASan, -malloc_limit_mb, -timeout)",
         text="All byte strings of length ≤ 2 for a fixed table of 100+ (type, parameter) pairs and all 3-byte strings for header-bearing types are enumerated; header fields at extreme values × body lengths enumerated; generated near-valid encodings with all single-bit flips and truncations, splices and random strings; overflow checks on; per-thread allocation accounting with a bound proportional to input length and parameter size; supervised child process turns aborts/hangs into reproducible violations.",
-        note="Trusted: the counting allocator; the allocation bound constants (64 KiB + 64·len + 8·nominal size).",
+        note="Trusted: the counting allocator; the allocation bound constants (64 KiB + 64·len + 8·nominal size). The thorough command additionally runs the cargo-fuzz target /verif/fuzz/fuzz_targets/codec.rs (panics abort, 256 MiB malloc limit, 10 s timeout).",
         design="3/C08"),
 }
 
@@ -148,6 +148,8 @@ def main():
         "engines": [
             {"name": "pv", "path": "/verif/engine", "serves_properties": [c["property_id"] for c in checks],
              "kind_free_text": "Rust binary: proptest TestRunner driven from main on 16 seeded workers + exhaustive small-scope enumerators + corpus replay; shrinks failures to JSON replay files; supervised child process for aborts/hangs"},
+            {"name": "fuzz", "path": "/verif/fuzz", "serves_properties": ["C07", "C08"],
+             "kind_free_text": "cargo-fuzz / libFuzzer target (ASan) over (type selector, bytes) with the C07/C08 oracle inside the target; thorough tier only; artifacts are converted to pv replay files"},
         ],
         "checks": checks,
         "not_applicable": na,
